@@ -206,41 +206,53 @@ int getentropy(void *buffer, size_t len) {
     }
     char line[1200];
     char *p = line;
+    static size_t e_req; /* request counter; e_i is the position in the plan */
     e3_entropy_point();
     lock();
-    size_t seq = e_i++;
+    size_t seq = e_req++;
     int tid = e3_tid();
     if (tid < 0) tid = small_tid();
-    struct step *st = NULL;
-    const char *why = "plan";
-    if (len > 256) why = "toolong";
-    else if (seq < e_n) st = &e_plan[seq];
-    else if (have_tail) { st = &tail; e3_tail_request(); }
-    else why = "exhausted";
     *p++ = 'E'; *p++ = ' ';
     p = fmt_long(p, (long)seq); *p++ = ' ';
     p = fmt_long(p, tid); *p++ = ' ';
     p = fmt_long(p, (long)len); *p++ = ' ';
-    int ret;
-    int err = 0;
-    if (st && st->kind == K_OK) {
-        size_t n = len < st->blen ? len : st->blen;
-        memcpy(buffer, st->bytes, n);
-        if (len > n) memset((char *)buffer + n, 0xA5, len - n);
+    /* The source is a byte stream: a request larger than one planned response continues with the
+     * following ones (an implementation that reads ahead into a pool sees the same bytes in the same
+     * order as one that asks for exactly one seed at a time); a smaller request gets a prefix and the
+     * rest of that response is gone. A failure anywhere in the stretch fails the whole request. */
+    const char *why = "plan";
+    int ret = 0, err = 0, from_tail = 0;
+    size_t filled = 0;
+    if (len > 256) { ret = -1; err = EIO; why = "toolong"; }
+    while (ret == 0 && filled < len) {
+        struct step *st = NULL;
+        if (e_i < e_n) st = &e_plan[e_i++];
+        else if (have_tail) { st = &tail; from_tail = 1; }
+        if (!st) { ret = -1; err = ENOSYS; why = "exhausted"; break; }
+        if (st->kind == K_OK && st->blen > 0) {
+            size_t n = len - filled < st->blen ? len - filled : st->blen;
+            memcpy((char *)buffer + filled, st->bytes, n);
+            filled += n;
+        } else if (st->kind == K_OK) {
+            memset((char *)buffer + filled, 0xA5, len - filled);
+            filled = len;
+        } else {
+            size_t n = len - filled < st->blen ? len - filled : st->blen;
+            memcpy((char *)buffer + filled, st->bytes, n);
+            ret = -1; err = (int)st->n;
+        }
+    }
+    if (from_tail) e3_tail_request();
+    if (ret == 0) {
         memcpy(p, "ok ", 3); p += 3;
         p = fmt_hex(p, buffer, len);
-        ret = 0;
+        *p++ = ' ';
+        const char *src = from_tail ? "tail" : "plan";
+        size_t wl = strlen(src); memcpy(p, src, wl); p += wl;
     } else {
-        if (st && st->kind == K_FAIL) {
-            size_t n = len < st->blen ? len : st->blen;
-            memcpy(buffer, st->bytes, n);
-            err = (int)st->n;
-        } else if (len > 256) err = EIO;
-        else err = ENOSYS;
         memcpy(p, "fail ", 5); p += 5;
         p = fmt_long(p, err); *p++ = ' ';
         size_t wl = strlen(why); memcpy(p, why, wl); p += wl;
-        ret = -1;
     }
     if (sched_on_flag()) { *p++ = ' '; *p++ = '@'; p = fmt_long(p, e3_steps()); }
     *p++ = '\n';
